@@ -134,7 +134,7 @@ def build(d):
             dt = dt.replace(tzinfo=datetime.timezone(datetime.timedelta(minutes=int(tz))))
         return U.UADateTime(value=dt)
     if t == "ByteString":
-        return U.UAByteString(value=na if d["v"] is None else base64.b64decode(d["v"]))
+        return U.UAByteString(value=None if d["v"] is None else base64.b64decode(d["v"]))   # UAByteString(pd.NA) raises (bool(pd.NA)); None is the null the parser uses
     if t == "NodeId":
         return U.UANodeId(d["v"][0], U.NodeIdType(d["v"][1]), d["v"][2])
     if t == "LocalizedText":
